@@ -16,7 +16,8 @@ def configs(tier, rng):
     groups = [pats[i:i + 5] for i in range(0, 15, 5)]
     cfgs = []
     for g in groups:
-        cfgs.append(dict(NC=2, Patterns=set(g), VTypes={'C', 'I', 'B'}, RowCoefs=set(rng.sample(ROW_COEFS, 3 if tier == 'quick' else 6)),
+        cfgs.append(dict(NC=2, Patterns=set(g), VTypes={'C', 'I', 'B'}, RowCoefs=set(rng.sample(ROW_COEFS, 3 if tier == 'quick' else 6)) | {(0, 0)},     # always a row whose terms all vanish: 0 <= rhs / 0 == rhs
+                        
                          ObjCoefs=set(rng.sample(OBJ_COEFS, 2 if tier == 'quick' else 5)), Rhs={-1, 1, 2} if tier == 'quick' else {-2, -1, 0, 1, 3},
                          MaxRows=1 if tier == 'quick' else 2))
     return cfgs
@@ -122,7 +123,9 @@ def run(rep, tier, props):
             stats['by_iface'][run_['iface']] = stats['by_iface'].get(run_['iface'], 0) + 1
             tag = '%s:%s' % (run_['iface'], cls)
             if run_['status'] == 'raised':
-                _emit(rep, dict(sig='C11:interface-raised:%s:%s' % (tag, run_['exc'].split(':')[0]), prop='C11', what='solve() raised %s' % run_['exc'], **detail), props)
+                # name the trigger: an equality row all of whose terms vanish (0 == rhs) is a specific, separately listed input
+                trig = ':vanishing-equality-row' if any(rw['sense'] == 1 and not any(rw['coef']) for rw in d['rows']) else ''
+                _emit(rep, dict(sig='C11:interface-raised:%s:%s%s' % (tag, run_['exc'].split(':')[0], trig), prop='C11', what='solve() raised %s' % run_['exc'], **detail), props)
                 continue
             if run_['status'] == 'ok':
                 oks.append(run_)
